@@ -24,7 +24,7 @@ VARIABLES cfg,      \* channel configuration record (from the "init" event)
           q,        \* qid -> wire query record
           owedF,    \* s -> number of failure notifications owed
           owedO,    \* s -> number of success notifications owed
-          proc,     \* [in |-> BOOLEAN, nonfd |-> BOOLEAN, nrecv |-> Nat]: the process call in progress
+          proc,     \* [in, nonfd, nrecv, inbox]: the process call in progress; inbox = datagrams read but not yet processed
           oos       \* out of scope for this facet (history no longer judged)
 
 rvars == <<cfg, now, srv, fdi, q, owedF, owedO, proc, oos>>
@@ -122,7 +122,7 @@ RcodeErr(rc) == CASE rc = 2 -> "ESERVFAIL" [] rc = 4 -> "ENOTIMP" [] rc = 5 -> "
 RInit == /\ cfg = [nsrv |-> 0]
          /\ now = 0
          /\ srv = <<>> /\ fdi = <<>> /\ q = <<>> /\ owedF = <<>> /\ owedO = <<>>
-         /\ proc = [in |-> FALSE, nonfd |-> FALSE, nrecv |-> 0]
+         /\ proc = [in |-> FALSE, nonfd |-> FALSE, nrecv |-> 0, inbox |-> <<>>]
          /\ oos = FALSE
 
 (* ---- the properties, as state predicates evaluated by the trace specification --- *)
